@@ -10,6 +10,10 @@
 #include "processor.cpp"
 #include "teakra.cpp"
 #include <new>
+#ifdef NATIVE_TWIN
+#include <dlfcn.h>
+#include <pthread.h>
+#endif
 using namespace Teakra;
 using TImpl = ::Teakra::Teakra::Impl;
 extern "C" {
@@ -44,5 +48,22 @@ RegisterState* ti_regs(TImpl* t) { return &t->processor.GetRegisterState(); }
 size_t ti_sizeof() { return sizeof(TImpl); }
 #ifdef NATIVE_TWIN
 TImpl* tn_new() { return new TImpl(nullptr); }
+// schedule replay: the k-th pthread_mutex_lock of the calling thread (counted from tn_set_hook) first runs a hook - the
+// "other thread's" operation placed at that critical-section boundary. Bound to this shared object by -Wl,-Bsymbolic.
+static int tn_lock_serial = 0, tn_lock_at = -1;
+static void (*tn_hook)() = nullptr;
+int pthread_mutex_lock(pthread_mutex_t* m) {
+    static int (*real)(pthread_mutex_t*) = (int (*)(pthread_mutex_t*))dlsym(RTLD_NEXT, "pthread_mutex_lock");
+    if (tn_hook) {
+        if (tn_lock_serial++ == tn_lock_at) {
+            auto h = tn_hook;
+            tn_hook = nullptr;
+            h();
+        }
+    }
+    return real(m);
+}
+void tn_set_hook(int at, void (*h)()) { tn_lock_serial = 0; tn_lock_at = at; tn_hook = h; }
+int tn_hook_pending() { return tn_hook != nullptr; }
 #endif
 }
